@@ -127,6 +127,7 @@ def run_job(args):
                                 options_on=sorted(m.vcfg.get((v["rule"], v["detail"]), ())),
                                 default_alive=sorted(m.vdef.get((v["rule"], v["detail"]), ()))) for v in m.violations],
             "unanalysable": dedup_unanalysable(ex.unanalysable),
+            "options_decided": sorted(k[4:] for k in m.cfg_decided if k.startswith("cfg:")),
             "verdicts": verdict_histogram(ex.results),
             "instances": sorted(set(visited_instances(ex, prog))),
             "sample_paths": sample_paths(ex),
